@@ -8,8 +8,272 @@
 mod base;
 
 use base::*;
+use redirectionio::api::Rule;
+use redirectionio::http::Request;
+use redirectionio::router::Router;
+use redirectionio::RouterConfig;
 use rio_harness::*;
 use serde_json::{json, Value};
+
+// ---------------------------------------------------------------------------------------------
+// Unicode-aware constructs: cached (compiled) vs lazily built regexes on non-ASCII haystacks.
+// No model is involved (the Lean engine does not know `\w`, `\d`, … nor Unicode classes): these cases are decided by
+// oracles evaluated on the implementation alone – the cache-free twin, and the linear scan with the regex crate.
+// ---------------------------------------------------------------------------------------------
+
+struct UGroup {
+    body: &'static str,
+    yes: &'static [&'static str],
+    no: &'static [&'static str],
+}
+
+/// Marker expressions whose meaning depends on Unicode awareness / Unicode case folding.
+const UNI_MENU: &[UGroup] = &[
+    UGroup { body: "?:\\w+", yes: &["é", "Ж9", "日本", "٤٢", "straße", "a_b", "ǅ"], no: &["", "-", "é-"] },
+    UGroup { body: "?:\\d+", yes: &["٤٢", "42", "４２", "४२"], no: &["", "a", "٤a"] },
+    UGroup { body: "?:[^/]+", yes: &["é", "🤘x", "Ünï", "٤٢"], no: &["", "é/"] },
+    UGroup { body: "?:.+?", yes: &["é", "日", "🤘", "aé"], no: &[""] },
+    UGroup { body: "?:.", yes: &["é", "🤘", "ß", "a"], no: &["", "éé"] },
+    UGroup { body: "?:.{2}", yes: &["éa", "🤘日", "ßß"], no: &["é", "ééé"] },
+    UGroup { body: "?:\\S+", yes: &["é", "Жук", "🤘"], no: &["", "é\u{a0}x", "é x", "\u{2003}"] },
+    UGroup { body: "?:\\w+\\b", yes: &["é", "Жук"], no: &["-"] },
+    UGroup { body: "?:\\bé\\w*", yes: &["é", "école"], no: &["aé"] },
+    UGroup { body: "?:[^a-z/]+", yes: &["É", "Ж", "٤", "🤘"], no: &["a", ""] },
+    UGroup { body: "?:\\W", yes: &["-", "🤘", " "], no: &["é", "٤", "a"] },
+    UGroup { body: "?:\\D+", yes: &["é", "ab"], no: &["٤", "4"] },
+    UGroup { body: "?:\\s", yes: &[" ", "\u{a0}", "\u{2003}"], no: &["a", ""] },
+    UGroup { body: "?:\\pL+", yes: &["é", "Жук", "日本"], no: &["٤", ""] },
+    UGroup { body: "?:[[:alpha:]]+", yes: &["ab", "Z"], no: &["é", ""] },
+    UGroup { body: "?:[а-я]+", yes: &["жук", "я"], no: &["ЖУК", "z"] },
+    UGroup { body: "?:[α-ω]+", yes: &["σ", "ς", "λ"], no: &["Σ", "a"] },
+    UGroup { body: "?:é+", yes: &["é", "éé"], no: &["É", "e", "e\u{301}"] },
+    UGroup { body: "?:straße", yes: &["straße"], no: &["STRASSE", "STRAẞE", "strasse"] },
+    UGroup { body: "?:(?i:жук)", yes: &["жук", "ЖУК", "Жук"], no: &["zhuk"] },
+    UGroup { body: "?:[a-z]+", yes: &["a", "xyz"], no: &["é", "A", ""] },
+];
+
+/// Literal text (goes through regex::escape) with cased non-ASCII letters, 2/3/4-byte characters, non-ASCII digits.
+const UNI_LITS: &[&str] = &["/", "/", "é", "É", "ß", "Ж", "ж", "σ", "Σ", "İ", "ǅ", "k", "s", "日", "🤘", "٤", "-", ".", "a", "B", "straße"];
+
+fn uni_pool(rng: &mut Prng) -> Vec<Pat> {
+    let mut pool: Vec<Pat> = Vec::new();
+    let mut base: Pat = vec![Tok::L("/".to_string())];
+    for _ in 0..rng.range(1, 3) {
+        if rng.chance(1, 2) {
+            base.push(Tok::G(rng.pick(UNI_MENU).body.to_string()));
+        } else {
+            base.push(Tok::L((0..rng.range(1, 2)).map(|_| *rng.pick(UNI_LITS)).collect()));
+        }
+    }
+    pool.push(base);
+    let target = rng.range(2, 5);
+    let mut guard = 0;
+    while pool.len() < target && guard < 30 {
+        guard += 1;
+        let mut p = rng.pick(&pool).clone();
+        match rng.below(4) {
+            0 => p.push(Tok::G(rng.pick(UNI_MENU).body.to_string())),
+            1 => p.push(Tok::L((*rng.pick(UNI_LITS)).to_string())),
+            2 => {
+                let k = rng.below(p.len());
+                p[k] = if rng.chance(1, 2) { Tok::G(rng.pick(UNI_MENU).body.to_string()) } else { Tok::L((*rng.pick(UNI_LITS)).to_string()) };
+            }
+            _ => {
+                // case variant of the literals (Unicode upper/lower-casing)
+                for t in p.iter_mut() {
+                    if let Tok::L(s) = t {
+                        *t = Tok::L(if rng.chance(1, 2) { s.to_uppercase() } else { s.to_lowercase() });
+                    }
+                }
+            }
+        }
+        if !render(&p).is_empty() && !pool.iter().any(|q| render(q) == render(&p)) {
+            pool.push(p);
+        }
+    }
+    pool
+}
+
+fn uni_instance(p: &Pat, rng: &mut Prng, near: bool) -> String {
+    let mut s = String::new();
+    for t in p {
+        match t {
+            Tok::L(l) => s.push_str(l),
+            Tok::G(b) => match UNI_MENU.iter().find(|g| g.body == b) {
+                Some(g) => {
+                    if near && !g.no.is_empty() && rng.chance(1, 3) {
+                        s.push_str(*rng.pick(g.no));
+                    } else {
+                        s.push_str(*rng.pick(g.yes));
+                    }
+                }
+                None => s.push('x'),
+            },
+        }
+    }
+    if near {
+        match rng.below(6) {
+            0 => s = s.to_uppercase(),
+            1 => s = s.to_lowercase(),
+            2 => {
+                // swap the case of one (possibly non-ASCII) letter
+                let cs: Vec<char> = s.chars().collect();
+                if !cs.is_empty() {
+                    let i = rng.below(cs.len());
+                    let c = cs[i];
+                    let swapped: String = if c.is_lowercase() { c.to_uppercase().collect() } else { c.to_lowercase().collect() };
+                    s = cs[..i].iter().collect::<String>() + &swapped + &cs[i + 1..].iter().collect::<String>();
+                }
+            }
+            3 => s.push('é'),
+            4 => s.push('٤'),
+            _ => {}
+        }
+    }
+    s
+}
+
+fn uni_haystacks(pool: &[Pat], rng: &mut Prng, n: usize) -> Vec<String> {
+    let mut hs: Vec<String> = pool.iter().map(|p| uni_instance(p, rng, false)).collect();
+    while hs.len() < n {
+        let p = rng.pick(pool).clone();
+        let near = rng.chance(2, 3);
+        hs.push(uni_instance(&p, rng, near));
+    }
+    hs
+}
+
+fn gen_twin(rng: &mut Prng, emit: &mut dyn FnMut(Value)) {
+    let pool = uni_pool(rng);
+    let unique = rng.chance(1, 4);
+    let ic = rng.chance(1, 2);
+    let nops = rng.range(3, 12);
+    let ops = history(&pool, unique, rng, nops, 8);
+    let hay = uni_haystacks(&pool, rng, 10);
+    emit(json!({"mode": "twin", "ic": ic, "unique": unique, "ops": ops, "hay": hay}));
+}
+
+/// Router level: rules whose path / host contain markers with Unicode-aware expressions; requests with non-ASCII paths
+/// (percent-encoded by the request normalisation) and non-ASCII hosts (matched as they are).
+fn gen_router(rng: &mut Prng, emit: &mut dyn FnMut(Value)) {
+    let nrules = rng.range(2, 6);
+    let mut rules = Vec::new();
+    let mut reqs = Vec::new();
+    for i in 0..nrules {
+        let g = rng.pick(UNI_MENU);
+        let regex = g.body.trim_start_matches("?:").to_string();
+        let lit = *rng.pick(&["a", "é", "É", "Ж", "shop", "ß", "日"]);
+        let on_host = rng.chance(1, 2);
+        let (path, host) = if on_host {
+            (format!("/{}", *rng.pick(&["x", "é", "p"])), Some(format!("{lit}@m{i}.example.com")))
+        } else {
+            (format!("/{lit}/@m{i}{}", *rng.pick(&["", "/z", "/é"])), if rng.chance(1, 4) { Some("example.com".to_string()) } else { None })
+        };
+        rules.push(json!({"id": format!("r{i}"), "path": path, "host": host, "markers": [{"name": format!("m{i}"), "regex": regex}]}));
+        // requests instantiating this rule (and near misses)
+        for _ in 0..2 {
+            let inst = if rng.chance(2, 3) || g.no.is_empty() { *rng.pick(g.yes) } else { *rng.pick(g.no) };
+            let mut lit_r = lit.to_string();
+            match rng.below(4) {
+                0 => lit_r = lit_r.to_uppercase(),
+                1 => lit_r = lit_r.to_lowercase(),
+                _ => {}
+            }
+            if on_host {
+                reqs.push(json!({"path": rules[i]["path"], "host": format!("{lit_r}{inst}.example.com")}));
+            } else {
+                let tail = rules[i]["path"].as_str().unwrap().split(&format!("@m{i}")).nth(1).unwrap_or("").to_string();
+                reqs.push(json!({"path": format!("/{lit_r}/{inst}{tail}"), "host": if rng.chance(1, 2) { json!("example.com") } else { Value::Null }}));
+            }
+        }
+    }
+    let limits = json!([0, 1, 2, 3, 7, 100, Value::Null]);
+    emit(json!({"mode": "router", "cfg": {"ihc": rng.chance(1, 2), "ipc": rng.chance(1, 2), "any": rng.chance(1, 4)}, "rules": rules, "reqs": reqs, "limits": limits}));
+}
+
+fn run_router(case: &Value) -> Obs {
+    let cfg = case.get("cfg").cloned().unwrap_or(json!({}));
+    let b = |k: &str| cfg.get(k).and_then(|v| v.as_bool()).unwrap_or(false);
+    let config: RouterConfig = match serde_json::from_value(json!({
+        "ignore_host_case": b("ihc"), "ignore_header_case": false, "ignore_path_and_query_case": b("ipc"),
+        "always_match_any_host": b("any"), "ignore_marketing_query_params": true, "pass_marketing_query_params_to_target": true,
+    })) {
+        Ok(c) => c,
+        Err(e) => return Obs::invalid(&format!("config: {e}")),
+    };
+    let mut rules: Vec<Rule> = Vec::new();
+    for (i, r) in case.get("rules").and_then(|r| r.as_array()).cloned().unwrap_or_default().iter().enumerate() {
+        let mut source = serde_json::Map::new();
+        match r.get("path").and_then(|p| p.as_str()) {
+            Some(p) => {
+                source.insert("path".into(), json!(p));
+            }
+            None => return Obs::invalid("rule path"),
+        }
+        if let Some(h) = r.get("host").and_then(|h| h.as_str()) {
+            source.insert("host".into(), json!(h));
+        }
+        let rj = json!({"id": r.get("id").cloned().unwrap_or(json!(format!("r{i}"))), "rank": i, "source": Value::Object(source),
+            "markers": r.get("markers").cloned().unwrap_or(json!([]))});
+        match serde_json::from_value::<Rule>(rj) {
+            Ok(rule) => rules.push(rule),
+            Err(e) => return Obs::invalid(&format!("rule: {e}")),
+        }
+    }
+    let mut requests = Vec::new();
+    for q in case.get("reqs").and_then(|r| r.as_array()).cloned().unwrap_or_default() {
+        let path = match q.get("path").and_then(|p| p.as_str()) {
+            Some(p) => p.to_string(),
+            None => return Obs::invalid("req path"),
+        };
+        let host = q.get("host").and_then(|h| h.as_str()).map(|h| h.to_string());
+        requests.push(Request::from_config(&config, path, host, Some("https".to_string()), Some("GET".to_string()), None, None));
+    }
+    let observe = |router: &Router<Rule>| -> Vec<Vec<String>> {
+        requests
+            .iter()
+            .map(|q| {
+                let mut ids: Vec<String> = router.match_request(q).iter().map(|r| r.id().to_string()).collect();
+                ids.sort();
+                ids
+            })
+            .collect()
+    };
+    let build = || {
+        let mut router = Router::<Rule>::from_config(config.clone());
+        for r in &rules {
+            router.insert(r.clone());
+        }
+        router
+    };
+    let baseline = observe(&build());
+    let any_hit = baseline.iter().any(|b| !b.is_empty());
+    let mut per_limit = Vec::new();
+    let mut fail: Option<String> = None;
+    for l in case.get("limits").and_then(|l| l.as_array()).cloned().unwrap_or_default() {
+        let limit = if l.is_null() { None } else { l.as_u64() };
+        let mut router = build();
+        router.cache(limit);
+        let after = observe(&router);
+        // a second warm-up on the same router
+        router.cache(Some(1));
+        let after2 = observe(&router);
+        for (i, ((b, a), a2)) in baseline.iter().zip(after.iter()).zip(after2.iter()).enumerate() {
+            if (b != a || b != a2) && fail.is_none() {
+                fail = Some(format!(
+                    "request {i} {:?}: uncached router matches {b:?}, after cache({limit:?}) {a:?}, after a second warm-up {a2:?}",
+                    case["reqs"][i]
+                ));
+            }
+        }
+        per_limit.push(json!(after));
+    }
+    let mut o = Obs::new(json!({"uncached": baseline, "cached": per_limit})).trivial(!any_hit).tag("mode:router");
+    if let Some(why) = fail {
+        o = o.fail(why, "cache-visible");
+    }
+    o
+}
 
 fn gen(args: &Args, emit: &mut dyn FnMut(Value)) {
     let mut rng = Prng::new(args.seed ^ 0xC12);
@@ -35,6 +299,13 @@ fn gen(args: &Args, emit: &mut dyn FnMut(Value)) {
                 }
             }
         }
+    }
+    // Unicode-aware constructs on non-ASCII haystacks: twin / scan oracles only (no model), tree and router level
+    for _ in 0..(args.n / 3).max(50) {
+        gen_twin(&mut rng, emit);
+    }
+    for _ in 0..(args.n / 6).max(30) {
+        gen_router(&mut rng, emit);
     }
     for _ in 0..args.n {
         let pool = pattern_pool(&mut rng, false);
@@ -73,8 +344,23 @@ fn subsets(n: usize, k: usize) -> Vec<Vec<usize>> {
 }
 
 fn run12(case: &Value) -> Obs {
-    let mut o = run(case);
-    if o.oracle != "ok" || s(case, "mode").as_deref() != Some("beh") {
+    let mode = s(case, "mode");
+    if mode.as_deref() == Some("router") {
+        return run_router(case);
+    }
+    let twin = mode.as_deref() == Some("twin");
+    let mut o = if twin {
+        // harness side: exactly a `beh` run (find after every op, scan oracle with the regex crate) …
+        let mut c = case.clone();
+        c["mode"] = json!("beh");
+        let mut o = run(&c);
+        o.tags.retain(|t| t != "mode:beh");
+        o.tags.push("mode:twin".to_string());
+        o
+    } else {
+        run(case)
+    };
+    if o.oracle != "ok" || !(twin || mode.as_deref() == Some("beh")) {
         return o;
     }
     let ops = match case.get("ops").and_then(|o| o.as_array()) {
@@ -96,6 +382,7 @@ fn run12(case: &Value) -> Obs {
         return o.trivial(true);
     }
     let mut stripped = case.clone();
+    stripped["mode"] = json!("beh");
     stripped["ops"] = Value::Array(ops.iter().filter(|op| !is_cache(op)).cloned().collect());
     let base = run(&stripped);
     let (full, plain) = match (o.obs.as_array(), base.obs.as_array()) {
